@@ -352,6 +352,14 @@ def named_breaks(version, name, o, path, tbl):
             s.pop("extensions", None)
             out.append(("marking:no-definition-no-extensions", oo))
         oo, s = mut()
+        if isinstance(s.get("id"), str):
+            s["object_marking_refs"] = list(s.get("object_marking_refs") or []) + [s["id"]]
+            out.append(("marking:object-marked-with-itself", oo))
+        oo, s = mut()
+        if isinstance(s.get("id"), str):
+            s["granular_markings"] = list(s.get("granular_markings") or []) + [{"marking_ref": s["id"], "selectors": ["created"]}]
+            out.append(("marking:granularly-marked-with-itself", oo))
+        oo, s = mut()
         s["definition_type"] = "tlp"
         s["definition"] = {"tlp": "green"}
         if s.get("id") in M.TLP.values():
